@@ -40,7 +40,8 @@ theorem updLock_isDead {s s' : State} {k j v : Nat} (h : updLock s k j v = .ok s
       · cases h1; rfl
 
 /-- second excluded situation: the extend phase of an update decrements a blobber's challenge value below zero
-(`adjustChallengePool`, allocation.go 812: unchecked `uint64` subtraction) -/
+(`adjustChallengePool`, allocation.go 812: unchecked `uint64` subtraction), or increments a value that such a decrement
+left just below 2^64 past 2^64 (allocation.go 803: unchecked `+=`) -/
 def extendWraps (s : State) : Op → Prop
   | .update k c value size ext add rem rw cc dp ds =>
       ∃ s2 a, preExtend s k c value size ext add rem rw cc dp = .ok (s2, true) ∧ s2.allocs k = some a ∧ noWrap a.bas ds = false
